@@ -189,22 +189,30 @@ func hexCharToHex(ch byte) byte {
 	return 0
 }
 
+// readHexN reads the (up to) n hex digits of a \x, \u or \U escape. It stops at the first byte that isn't a
+// hex digit (without consuming it) so that a short or malformed escape can't swallow the closing quote.
+func (l *Lexer) readHexN(n int) uint32 {
+	var v uint32
+	for i := 0; i < n; i++ {
+		ch := l.peekChar()
+		if !(('0' <= ch && ch <= '9') || ('a' <= ch && ch <= 'f') || ('A' <= ch && ch <= 'F')) {
+			break
+		}
+		v = v<<4 | uint32(hexCharToHex(l.readChar()))
+	}
+	return v
+}
+
 func (l *Lexer) readHex() byte {
-	hb := hexCharToHex(l.readChar()) << 4
-	lb := hexCharToHex(l.readChar())
-	return hb | lb
+	return byte(l.readHexN(2))
 }
 
 func (l *Lexer) readUnicode16() rune {
-	hb := int(l.readHex()) << 8
-	lb := int(l.readHex())
-	return rune(hb | lb)
+	return rune(l.readHexN(4))
 }
 
 func (l *Lexer) readUnicode32() rune {
-	hb := l.readUnicode16() << 16
-	lb := l.readUnicode16()
-	return hb | lb
+	return rune(l.readHexN(8))
 }
 
 func (l *Lexer) readString(sep byte) (string, bool) {
